@@ -242,3 +242,34 @@ Proof.
   - rewrite upd_eq, sum_upd_notin by assumption. lia.
   - rewrite upd_neq by (intro; subst; contradiction). specialize (IH NDt Hin). lia.
 Qed.
+
+Lemma sum_ge_one : forall (a : N -> option ment) x l, In x l -> size_of (a x) <= sum_sizes a l.
+Proof.
+  intros a x l. induction l as [|y t IH]; intros H; [destruct H|]. cbn.
+  change (fold_right (fun y acc => size_of (a y) + acc) 0 t) with (sum_sizes a t).
+  destruct H as [->|H]; [lia|]. specialize (IH H). lia.
+Qed.
+Lemma sum_incl_le : forall (a : N -> option ment) l1 l2, NoDup l1 -> incl l1 l2 -> sum_sizes a l1 <= sum_sizes a l2.
+Proof.
+  intros a l1. induction l1 as [|x t IH]; intros l2 ND I; cbn; [lia|].
+  change (fold_right (fun y acc => size_of (a y) + acc) 0 t) with (sum_sizes a t).
+  inversion ND as [|? ? Hx NDt]; subst.
+  assert (Hin : In x l2) by (apply I; now left).
+  apply in_split in Hin. destruct Hin as [u [w ->]].
+  assert (I' : incl t (u ++ w)).
+  { intros y Hy. assert (In y (u ++ x :: w)) by (apply I; now right).
+    apply in_app_or in H. apply in_or_app. destruct H as [H|[H|H]]; auto. subst. contradiction. }
+  specialize (IH _ NDt I').
+  rewrite (sum_perm a (u ++ x :: w) (x :: u ++ w)) by (symmetry; apply Permutation_middle).
+  cbn. change (fold_right (fun y acc => size_of (a y) + acc) 0 (u ++ w)) with (sum_sizes a (u ++ w)). lia.
+Qed.
+Lemma prefix_map : forall {A B} (f : A -> B) p l, prefix p (map f l) -> exists l', p = map f l' /\ prefix l' l.
+Proof.
+  intros A B f p l. revert p. induction l as [|a t IH]; intros p H; cbn in H.
+  - apply prefix_nil in H. subst. exists []. split; [reflexivity|now exists []].
+  - apply prefix_cons in H. destruct H as [->|[p' [-> H]]].
+    + exists []. split; [reflexivity|now exists (a :: t)].
+    + destruct (IH _ H) as [l' [-> [q ->]]]. exists (a :: l'). split; [reflexivity|now exists q].
+Qed.
+Lemma prefix_refl : forall {A} (l : list A), prefix l l.
+Proof. intros. exists []. now rewrite app_nil_r. Qed.
